@@ -73,7 +73,7 @@ Definition cSTRSUB := 12.  Definition cTUPSUB := 13.
 Definition cNPBOOL := 19.  Definition cIDXOBJ := 20. Definition cFLTOBJ := 21.
 Definition cCPXOBJ := 22.  Definition cFUNCTION := 23. Definition cTYPE := 24.
 Definition cMODULE := 25.  Definition cOTHER := 26.  Definition cBUILTINFN := 28.
-Definition cNDARRAY := 29.
+Definition cNDARRAY := 29. Definition cPROXY := 30.
 (* user classes: >= 100 *)
 
 (* ---------- values ---------- *)
@@ -102,7 +102,8 @@ Inductive pv :=
 | PCallable (n : Z)                  (* 0: Python function, otherwise built-in function *)
 | PModule (n : Z)
 | POther (n : Z)                     (* dict / set / object(): unhashable iff n < 0 *)
-| PArray (dt : Z) (shape : list Z) (cid : Z).  (* numpy.ndarray: dtype id, shape, content id *)
+| PArray (dt : Z) (shape : list Z) (cid : Z)   (* numpy.ndarray: dtype id, shape, content id *)
+| PProxy (cls : Z) (id : Z).         (* transparent proxy: its type is Proxy, its __class__ reports class cls *)
 
 Definition class_of (v : pv) : Z :=
   match v with
@@ -119,6 +120,7 @@ Definition class_of (v : pv) : Z :=
   | PCallable n => if n =? 0 then cFUNCTION else cBUILTINFN
   | PModule _ => cMODULE | POther _ => cOTHER
   | PArray _ _ _ => cNDARRAY
+  | PProxy _ _ => cPROXY
   end.
 
 (* ---------- structural equality (same type tag, same atom) ---------- *)
@@ -160,6 +162,7 @@ Fixpoint pv_eqb (a b : pv) : bool :=
   | PType c, PType c' => c =? c'
   | PCallable n, PCallable m | PModule n, PModule m | POther n, POther m => n =? m
   | PArray k s c, PArray k' s' c' => (k =? k') && zlist_eqb s s' && (c =? c')
+  | PProxy c i, PProxy c' i' => (c =? c') && (i =? i')
   | _, _ => false
   end.
 
@@ -344,6 +347,8 @@ Definition truthy (v : pv) : bool :=
   | POther n => negb (n =? -1)       (* -1: the empty dict *)
   | _ => true
   end.
+
+Definition is_proxy (v : pv) : bool := match v with PProxy _ _ => true | _ => false end.
 
 Definition is_callable (v : pv) : bool :=
   match v with PCallable _ | PType _ => true | _ => false end.
